@@ -208,6 +208,7 @@ impl<'a> R<'a> {
                 let is_id = ans == XML_NS && aloc == "id";
                 if is_id && !an.starts_with("xml:") {
                     self.feat("xml-id-via-alias");
+                    self.alias_ids.push(value.clone());
                     if self.cfg.xmlid_spaces {
                         self.feat("xml-id-via-alias-many-spaces");
                     }
@@ -406,6 +407,7 @@ impl<'a> R<'a> {
             tag_points: self.tag_points,
             close_tags: self.close_tags,
             close_alts: self.close_alts,
+            alias_ids: self.alias_ids,
             text_points: self.text_points,
             attr_points: self.attr_points,
             decl_points: self.decl_points,
